@@ -392,6 +392,31 @@ def phases(ctx, uberjob, MemStore, Trunc, check_chain):
             ctx.broke("C19 harness: nested scenario did not fail", where)
         except uberjob.CallError as e:
             expect("run/nested-run-in-" + where, "nested", e, pred, lb)
+    # the SAME exception object raised again (a module-level error instance, a memoised failure, a cached future re-raising its stored
+    # exception): each failure is still attributed to the call that raised it THIS time, with that call's line and message
+    shared_error = ValueError("shared")
+
+    def reraise(x):
+        raise shared_error
+    p1 = uberjob.Plan()
+    f1 = p1.call(reraise, 1); l_first = here()
+    try:
+        uberjob.run(p1, output=f1, progress=None, max_workers=1)
+    except uberjob.CallError as e:
+        expect("same-exception-object/first run", "same_exception", e, lambda c: c is f1, l_first)
+    for variant in ("another plan", "the same plan, another call"):
+        p2 = p1 if variant.startswith("the same") else uberjob.Plan()
+        ok2 = p2.call(ok, 2)
+        f2 = p2.call(reraise, ok2); l_second = here()
+        try:
+            uberjob.run(p2, output=f2, progress=None, max_workers=1)
+            ctx.broke("C19 harness: same-exception scenario did not fail", variant)
+        except uberjob.CallError as e:
+            expect("same-exception-object/later run in " + variant, "same_exception", e, lambda c: c is f2, l_second)
+            listed = __import__("re").findall(r'File "(.*)", line (\d+), in (.*)', str(e))
+            if not listed or (listed[-1][2], listed[-1][0], int(listed[-1][1])) != l_second:
+                ctx.fail("phase:same_exception:message", "an exception object that an earlier run's call had raised is raised again by another call (%s): the message lists %r as the "
+                         "innermost frame, the failing call was created at %r" % (variant, listed[-1:], l_second), {"variant": variant})
     # many plans built, failed and dropped one after the other (addresses get reused): every error's message lists the frames
     # of its own call
     import gc
